@@ -252,7 +252,19 @@ def scenario_grow(sseed, kind):
             disc = [0]
             unseeded_in_create = []
 
+            # every build function declares the same two late entries, but not in the same order (different code paths):
+            # the order in which a trial's values were inserted must not matter for what counts as tried
+            late_pair = R.random() < 0.4
+
             def discover(R_, t):
+                if late_pair:
+                    for nm_ in R_.sample(["la", "lb"], 2):
+                        try:
+                            t.hyperparameters.Boolean(nm_)
+                        except Exception:
+                            pass
+                    tags["late-pair-any-order"] += 1
+                    return
                 if R_.random() < (0.7 if focus else 0.4) and disc[0] < (2 if focus else 4):
                     disc[0] += 1
                     nm = f"n{disc[0]}"
